@@ -41,6 +41,10 @@ STRENGTHENED = {
     'C34': 'missed at first (an ABBA lock inversion that the stress run did not happen to interleave); the lock-order monitor `kit/verifsync` was added: every mutex of package nebula is instrumented in the build overlay and a cycle in the observed lock-class graph is a violation whether or not the run deadlocked.',
     'C09-2': 'missed by C09 at first (caught by C28); C09 got dual-certificate peers whose v1/v2 certificates list different address sets, IPv6 traffic to secondary addresses, connection-manager style promotions and local closes, each followed by the audit.',
     'C05-2': 'missed at first; a trust-reload unit was added (target initiates to a puppet that delays its genuine reply while pki.blocklist / pki.ca are reloaded through the real reload path).',
+    'C30-2': 'missed at first (every certificate in the workload was v1); a third of the peers now present a v2 certificate to the v1-only node.',
+    'C22-2': 'missed by C22 at first (caught by C16); the configuration generator now emits related rule pairs (several selectors + narrow local_cidr, followed by a rule repeating one selector with another local_cidr).',
+    'C32-2': 'missed at first (single-address peer); the peer is now certified for two addresses and half of the cases dial the second one.',
+    'C29': 'missed at first (the window between the pending-handshake lookup and its lock is too narrow for free scheduling); a yield point was added there (hook commit 429c36f) and a directed script forces time-out + re-allocation inside it.',
     'C47': 'missed at first (short inputs were only presented as len==cap slices); short inputs at the front of a larger stale buffer were added.',
 }
 
